@@ -154,6 +154,70 @@ Lemma tie_sorter_collect_cb : TIE_sorter_collect_cb =
    (0, "reader_vec_add(s->readers,reader)")].
 Proof. reflexivity. Qed.
 
+(* mtbl/sorter.c: mtbl_sorter_options_init *)
+Lemma tie_srt_mtbl_sorter_options_init : TIE_srt_mtbl_sorter_options_init =
+  [(0, "structmtbl_sorter_options*opt");
+   (0, "opt=my_calloc(1,sizeof(*opt))");
+   (0, "opt->max_memory=DEFAULT_SORTER_MEMORY");
+   (0, "opt->pool=NULL");
+   (0, "mtbl_sorter_options_set_temp_dir(opt,DEFAULT_SORTER_TEMP_DIR)");
+   (0, "return(opt)")].
+Proof. reflexivity. Qed.
+
+(* mtbl/sorter.c: mtbl_sorter_options_destroy *)
+Lemma tie_srt_mtbl_sorter_options_destroy : TIE_srt_mtbl_sorter_options_destroy =
+  [(0, "if(*opt)");
+   (1, "free((*opt)->tmp_dname)");
+   (1, "my_free(*opt)")].
+Proof. reflexivity. Qed.
+
+(* mtbl/sorter.c: mtbl_sorter_options_set_merge_func *)
+Lemma tie_srt_mtbl_sorter_options_set_merge_func : TIE_srt_mtbl_sorter_options_set_merge_func =
+  [(0, "opt->merge=merge");
+   (0, "opt->merge_clos=clos")].
+Proof. reflexivity. Qed.
+
+(* mtbl/sorter.c: mtbl_sorter_options_set_temp_dir *)
+Lemma tie_srt_mtbl_sorter_options_set_temp_dir : TIE_srt_mtbl_sorter_options_set_temp_dir =
+  [(0, "free(opt->tmp_dname)");
+   (0, "opt->tmp_dname=strdup(temp_dir)")].
+Proof. reflexivity. Qed.
+
+(* mtbl/sorter.c: mtbl_sorter_options_set_max_memory *)
+Lemma tie_srt_mtbl_sorter_options_set_max_memory : TIE_srt_mtbl_sorter_options_set_max_memory =
+  [(0, "if(max_memory<MIN_SORTER_MEMORY)max_memory=MIN_SORTER_MEMORY");
+   (0, "opt->max_memory=max_memory")].
+Proof. reflexivity. Qed.
+
+(* mtbl/sorter.c: mtbl_sorter_options_set_threadpool *)
+Lemma tie_srt_mtbl_sorter_options_set_threadpool : TIE_srt_mtbl_sorter_options_set_threadpool =
+  [(0, "opt->pool=pool")].
+Proof. reflexivity. Qed.
+
+(* mtbl/sorter.c: _mtbl_sorter_get_entry_batch *)
+Lemma tie_srt_mtbl_sorter_get_entry_batch : TIE_srt_mtbl_sorter_get_entry_batch =
+  [(0, "structentry_batch*b");
+   (0, "assert(!s->iterating)");
+   (0, "b=calloc(1,sizeof(*b))");
+   (0, "b->s=s");
+   (0, "b->entries=s->vec");
+   (0, "s->vec=entry_vec_init(INITIAL_SORTER_VEC_SIZE)");
+   (0, "s->entry_bytes=0");
+   (0, "returnb")].
+Proof. reflexivity. Qed.
+
+(* mtbl/sorter.c: sorter_iter_seek *)
+Lemma tie_srt_sorter_iter_seek : TIE_srt_sorter_iter_seek =
+  [(0, "structsorter_iter*it=(structsorter_iter*)v");
+   (0, "return(mtbl_iter_seek(it->m_iter,key,len_key))")].
+Proof. reflexivity. Qed.
+
+(* mtbl/sorter.c: sorter_iter_next *)
+Lemma tie_srt_sorter_iter_next : TIE_srt_sorter_iter_next =
+  [(0, "structsorter_iter*it=(structsorter_iter*)v");
+   (0, "return(mtbl_iter_next(it->m_iter,key,len_key,val,len_val))")].
+Proof. reflexivity. Qed.
+
 (* libmy/vector.h: whole file *)
 Lemma tie_vector_h : TIE_vector_h =
   [(0, "#include<assert.h>");
